@@ -1,20 +1,28 @@
 #!/bin/bash
 # git wrapper used as ServerConfig::Git::git_path by the verification harness: fails the n-th
-# invocation of a chosen git sub-command, before or after running it.
-# Control file ($GITFAULT_CTL): "<subcommand> <n> <before|after>"; it is consumed when it fires.
+# invocation of chosen git sub-commands, before or after running them.
+# Control file ($GITFAULT_CTL): one rule per line "<subcommand> <n> <before|after>"; a rule is
+# consumed when it fires.
 ctl="${GITFAULT_CTL:-/nonexistent}"
 if [ -f "$ctl" ]; then
-  read -r sub n when < "$ctl"
-  if [ "$1" = "$sub" ]; then
-    cnt_file="$ctl.count"
-    c=$(( $(cat "$cnt_file" 2>/dev/null || echo 0) + 1 ))
-    echo "$c" > "$cnt_file"
-    if [ "$c" = "$n" ]; then
-      rm -f "$ctl" "$cnt_file"
-      if [ "$when" = "after" ]; then git "$@" >/dev/null 2>&1; fi
-      echo "injected failure of git $1" >&2
-      exit 1
+  i=0
+  while read -r sub n when; do
+    i=$((i+1))
+    [ -z "$sub" ] && continue
+    if [ "$1" = "$sub" ]; then
+      cnt_file="$ctl.count.$sub.$n.$when"
+      c=$(( $(cat "$cnt_file" 2>/dev/null || echo 0) + 1 ))
+      echo "$c" > "$cnt_file"
+      if [ "$c" = "$n" ]; then
+        # consume this rule
+        grep -v -x "$sub $n $when" "$ctl" > "$ctl.tmp"; mv "$ctl.tmp" "$ctl"
+        rm -f "$cnt_file"
+        [ -s "$ctl" ] || rm -f "$ctl"
+        if [ "$when" = "after" ]; then git "$@" >/dev/null 2>&1; fi
+        echo "injected failure of git $1" >&2
+        exit 1
+      fi
     fi
-  fi
+  done < "$ctl"
 fi
 exec git "$@"
